@@ -14,16 +14,19 @@ RAISES_ARE_VIOLATIONS = True
 DECIDING = {"M-bs": 43850, "M-gs": 19549, "R-gs": 5660}
 THOROUGH_EXTRA = ["W2", "W3"]
 RULE = (
-    "Sources use unique score values, so owner[value] = (class, group) makes every history unambiguous. M-gs judges every GroupScores "
+    "Most sources use unique score values, so owner[value] = (class, group) makes every history unambiguous; every ninth source has tied / "
+    "quantised scores (also kept as uint8/int8/uint16/int16 arrays), judged by multisets and counts: rows carrying a label, partition of the "
+    "matrix, and for samples the existence of every (value, class, group) triple in the source and the per-group counts. M-gs judges every GroupScores "
     "construction (multiset of (score,label) pairs preserved, arrays ascending, groups = sorted distinct labels) and every gs[g] (exactly the "
     "scores carrying the label); M-bs judges every bootstrap_sample (each sampled (score,label) is an owner pair of the right class, arrays "
     "ascending, group list/order preserved, by_group+replacement: each group's count exact, plus the C11 per-sample clauses). Relations R-gs "
     "per case: swap() flips class and keeps labels; group_cm[i] == Scores(filtered).cm == counting; sum over groups == cm at every threshold; "
-    "groupwise(m) == stack of per-group results == group_<m>; from_labels == constructor. W1: 1-5 groups (some lacking a class), names incl. "
+    "groupwise(m) == stack of per-group results == group_<m> (also user callables consuming the RNG or changing value type); swap() keeps the "
+    "list and order of groups; == true for a reconstruction, false when one field differs; single thresholds in every form; from_labels == constructor. W1: 1-5 groups (some lacking a class), names incl. "
     "'_', numeric-looking and unicode, 1-25 and 120-200 scores per class, 4 cfg, replacement/single_pass/dynamic x None/by_label/by_group "
     "(single_pass+by_group only when every stratum is non-empty). Non-trivial: >=2 groups and both classes present; distinct = hash of inputs."
 )
-ASSUMPTIONS = ["unique finite score values per source (so that labels are identifiable)", "group labels compared as strings",
+ASSUMPTIONS = ["finite score values; element-wise tracing of labels only for sources with unique values", "group labels compared as strings",
                "NumPy global RandomState seeded per case"]
 NAMES = ["a", "b", "c", "dd", "e_f", "Z", "10", "9", "ß", "x y"]
 FLIP = {"pos": "neg", "neg": "pos"}
